@@ -1,8 +1,40 @@
 """Check configuration for property C05 (streams, evidence texts)."""
-CFG = {'streams': [{'name': 'C05x', 'n_quick': 240, 'n_thorough': 2400, 'thorough_seeds': 2,
-              'what_fails': 'execution and error rendering: 61 the run did not finish within the watchdog limit (hang); 62 the implementation panicked (generators stay outside the known classes K1-K3); 63 rendering the error (Display / display_pretty) panicked; otherwise outcome class and graph vs the model (codes 1-7)'}],
- 'rule': 'accepted generated programs incl. ill-typed ones (0-2 injected runtime faults, graph nodes rendered to text allowed) x generated sources with 0-3 injected syntax faults (ERROR/MISSING nodes, non-ASCII text) x both modes; every run in its own thread with a 10 s watchdog and catch_unwind; errors are rendered plain and pretty; non-trivial = failing run or tree with syntax errors',
- 'explanation': 'Theorems: scan loops always advance and terminate within S|subject| iterations for any regex engine with well-formed spans; no stdlib call panics or diverges; the checker never panics on consistent query tables; witness lemmas for the three known panic/divergence classes (K1 capture in a shorthand body, K2 recursive shorthand, K3 unbound full-match capture). Streams: outcome class {Ok, Err, Panic, Hang} of File::execute and of error rendering vs the model, which has an explicit Panic outcome at every unwrap/expect/index/unreachable! site. Parser part (the parser returns on every text): covered by the parser model of C07 (totality theorem and stream) once merged; not part of this check yet.',
- 'assumptions': ['real stack exhaustion and wall-clock time cannot be exhibited by the model; they are covered by the watchdog / child-process runs only',
+CFG = {'streams': [{'name': 'C05x',
+              'n_quick': 240,
+              'n_thorough': 2400,
+              'thorough_seeds': 2,
+              'what_fails': 'execution and error rendering: 61 the run did not finish within the watchdog limit (hang); 62 the implementation '
+                            'panicked (generators stay outside the known classes K1-K3); 63 rendering the error (Display / display_pretty) panicked; '
+                            'otherwise outcome class and graph vs the model (codes 1-7)'},
+             {'name': 'C05p',
+              'n_quick': 200,
+              'n_thorough': 2000,
+              'thorough_seeds': 1,
+              'what_fails': 'ast::File::parse on a MALFORMED text (mutated valid program or hand-written edge case) disagreed with Model/Parser.v: 1 '
+                            '= AST differs, 2 = only locations differ, 3 = different ParseError variant, 4 = other location, 5 = ORACLE_MISS, 6 = '
+                            'the model reaches a panic site, 7 = model out of fuel, 8 = the implementation panicked or took longer than 2 s, 9 = Ok '
+                            'vs Err, 10 = parsed AST is not the intended one (not used in this stream), 11 = scan patterns differ, 12 = error '
+                            'payload differs'}],
+ 'rule': 'accepted generated programs incl. ill-typed ones (0-2 injected runtime faults, graph nodes rendered to text allowed) x generated sources '
+         'with 0-3 injected syntax faults (ERROR/MISSING nodes, non-ASCII text) x both modes; every run in its own thread with a 10 s watchdog and '
+         'catch_unwind; errors are rendered plain and pretty; non-trivial = failing run or tree with syntax errors | parser part: see C07.py, stream '
+         'C05p: hand-written edge cases for every ParseError variant plus valid texts with 1-3 token-/character-level mutations',
+ 'explanation': 'Theorems: scan loops always advance and terminate within S|subject| iterations for any regex engine with well-formed spans; no '
+                'stdlib call panics or diverges; the checker never panics on consistent query tables; witness lemmas for the three known '
+                'panic/divergence classes (K1 capture in a shorthand body, K2 recursive shorthand, K3 unbound full-match capture). Streams: outcome '
+                'class {Ok, Err, Panic, Hang} of File::execute and of error rendering vs the model, which has an explicit Panic outcome at every '
+                'unwrap/expect/index/unreachable! site. PARSER PART: Theorems in Props/C05parse.v (not Props/C05.v, which the execution part will '
+                'provide): parse_total - for every text, with externals that answer (OracleTotal: tree-sitter keeps the appended full-match capture '
+                'of every query it accepts and compiles the merged source), parse X (S (length text)) text is a file or a ParseError: no panic site, '
+                'no fuel exhaustion (linear bound); parse_never_out_of_fuel - without any assumption: never out of fuel, and the only reachable '
+                'panic sites are 7 (.expect on the full-match capture index) and 8 (merged Query::new(..).unwrap()), both decided by tree-sitter; '
+                'all six self.skip().unwrap() sites are unreachable; integer / $n overflow is an error, not a panic (also C07 '
+                'integer_literal_overflow). Correspondence stream C05p: see C07.py.',
+ 'assumptions': ['real stack exhaustion and wall-clock time cannot be exhibited by the model; they are covered by the watchdog / child-process runs '
+                 'only',
                  'tree-sitter queries, regex crate and stdlib as in C01'],
- 'partial': ['exec_no_panic (for every checked file, well-formed match data and valid globals neither interpreter reaches a Panic site outside K1-K3) is not proved as one theorem: it needs value-level invariants (graph-node references in range, balanced frames, valid store locations); the pieces above are proved and the streams compare the Panic outcome class on every case']}
+ 'partial': ['exec_no_panic (for every checked file, well-formed match data and valid globals neither interpreter reaches a Panic site outside '
+             'K1-K3) is not proved as one theorem: it needs value-level invariants (graph-node references in range, balanced frames, valid store '
+             'locations); the pieces above are proved and the streams compare the Panic outcome class on every case',
+             'real stack depth is not modelled: the model recursion is bounded by fuel; nesting up to 64 is exercised dynamically by stream C05p'],
+ 'extra_props': ['C05parse']}
